@@ -8,7 +8,7 @@
    loop as soon as the awaited counter is zero, a non-zero counter is always accounted for by a registered
    (held or in-flight) reader, new readers register in the other counter, and quiescent states are finished
    (no deadlock or livelock between readers and writers). *)
-From GV Require LRProofs CowProofs RcuReadProofs.
+From GV Require LRProofs CowProofs RcuReadProofs RcuLiveProofs.
 
 (* ---------- lr_guarded ---------- *)
 (* wait-free read acquisition: any reader pc is enabled in ANY global state under ANY choice *)
@@ -106,3 +106,12 @@ Theorem rcu_register_solo : ltac:(let T := type of RcuReadProofs.register_solo i
 Proof. exact RcuReadProofs.register_solo. Qed.
 Theorem rcu_zhead_changes_by_cas : ltac:(let T := type of RcuReadProofs.zhead_changes_by_cas in exact T).
 Proof. exact RcuReadProofs.zhead_changes_by_cas. Qed.
+
+(* no deadlock, no livelock: in every reachable unfinished state some retry-free step is enabled, and from every
+   reachable state a schedule of at most [mu s] steps (the mutex holder first, then every thread alone: a stale
+   CAS fails at most once and the solo retry succeeds) finishes every thread - for all programs, including
+   those that never release their handles *)
+Theorem rcu_progress_step : ltac:(let T := type of RcuLiveProofs.progress_step in exact T).
+Proof. exact RcuLiveProofs.progress_step. Qed.
+Theorem rcu_eventually_finishes : ltac:(let T := type of RcuLiveProofs.eventually_finishes in exact T).
+Proof. exact RcuLiveProofs.eventually_finishes. Qed.
